@@ -3,6 +3,7 @@
 From Coq Require Import List String Ascii ZArith NArith Bool.
 From QRB Require Import Base.Bytes Model.W Model.Values Model.Compile Model.Sexp Model.Decode.
 From QRB Require Import Meta.Regex Gen.Regex Model.WArgs Model.Wfe Pg.Lexer Model.JsonMap.
+From QRB Require Import Pg.Expr Model.XExp Model.C02Eval.
 Import ListNotations.
 Local Open Scope string_scope.
 
@@ -162,6 +163,18 @@ Definition handle (x : sexp) : string :=
           match pg_lex b s' with
           | Some ts => "TOK " ++ join_with " " (map show_token ts)
           | None => "LEXERR"
+          end
+      | _, _ => "DECODEFAIL"
+      end
+  | SList [SAtom "c02"; e; s] =>
+      match decode_exp e, d_str s with
+      | Some e', Some s' =>
+          let tf (b : bool) := if b then "T" else "F" in
+          match c02_eval valid_ident valid_type e' s' with
+          | VOk cov => "C02 ok " ++ tf cov
+          | VMismatch cov c p st => "C02 mismatch " ++ tf cov ++ " s" ++ hex c ++ " s" ++ hex p ++ " " ++ join_with "," st
+          | VReject cov c st => "C02 reject " ++ tf cov ++ " s" ++ hex c ++ " s " ++ join_with "," st
+          | VSkip why => "C02 skip " ++ why
           end
       | _, _ => "DECODEFAIL"
       end
